@@ -27,18 +27,8 @@ import (
 // transaction is checked between a Commit and the next BeginBlock.
 const exclGov = "C07:gov-checktx-before-begin"
 
-// workingConfigUpdates replaces hist.ConfigUpdates for this process: the shared list uses key
-// names the application does not register, so no config-update proposal would ever be created.
-var workingConfigUpdates = []string{
-	"feeOption.minFeeDecimal:10", "feeOption.minFeeDecimal:9", "feeOption.minFeeDecimal:8",
-	"onsOptions.perBlockFees:100000000000001", "onsOptions.baseDomainPrice:1000000000000000000001",
-	"stakingOptions.maturityTime:109300", "stakingOptions.topValidatorCount:8", "stakingOptions.minSelfDelegationAmount:600000",
-	"evidenceOptions.blockVotesDiff:1100", "bogus.key:1", "nocolon",
-}
-
 func TestMain(m *testing.M) {
 	run.Quiet()
-	hist.ConfigUpdates = workingConfigUpdates
 	os.Exit(m.Run())
 }
 
